@@ -648,6 +648,55 @@ pub fn c05(cfg: &Cfg, rep: &mut Report) {
         let rs = cfg.get_usize("rand_seeds", if cfg.thorough { 8 } else { 4 });
         c05_check(cfg, rep, case_seed, &case, rs);
     }
+    // wide, loosely coupled frameworks: thousands of two-valued models, thousands of learnt nogoods
+    let wide_shards = cfg.get_usize("wide_shards", 4);
+    let wide = cfg.get_usize("wide_cases", if cfg.thorough { 2 } else if cfg.shard < wide_shards as u64 { 1 } else { 0 });
+    for i in 0..wide {
+        if rep.too_many() {
+            break;
+        }
+        let case_seed = cfg.case_seed(1_000_000 + i);
+        // (formatting every trace record of a 3000-iteration search is slow: smaller instance under the trace logger)
+        let n = cfg.get_usize("wide_n", if cfg.flag("trace_log") { 8 } else if cfg.thorough && i % 2 == 1 { 11 } else { 10 });
+        let case = wide_case(case_seed, n);
+        rep.count("wide_cases", 1);
+        rep.max("wide_case_two_valued_models", case.sem.two_valued().len() as u64);
+        c05_check(cfg, rep, case_seed, &case, 1);
+    }
+}
+
+/// n statements that hardly constrain each other: self-supporting statements, support cycles of two,
+/// and a few mutually attacking pairs. Grounding decides nothing, every combination is a two-valued model.
+pub fn wide_case(case_seed: u64, n: usize) -> SmallCase {
+    use oracle::F;
+    let mut rng = Rng::new(case_seed ^ 0x51DE);
+    let mut ac: Vec<F> = (0..n).map(F::Atom).collect();
+    let style = rng.below(4);
+    let mut i = 0;
+    while i < n {
+        let kind = if style <= 1 { 0 } else { rng.below(6) };
+        if kind <= 2 || i + 1 >= n {
+            ac[i] = F::Atom(i);
+            i += 1;
+        } else if kind <= 4 {
+            ac[i] = F::Atom(i + 1);
+            ac[i + 1] = F::Atom(i);
+            i += 2;
+        } else {
+            ac[i] = F::not(F::Atom(i + 1));
+            ac[i + 1] = F::not(F::Atom(i));
+            i += 2;
+        }
+    }
+    let g = GenAdf {
+        n,
+        labels: (0..n).map(|i| format!("w{}", i)).collect(),
+        ac,
+        family: "wide",
+    };
+    let r = g.render(&mut rng, true);
+    let sem = Sem::new(&g.ac);
+    SmallCase { g, text: r.text, sem, bio_ok: true }
 }
 
 pub fn c05_budget(_n: usize) -> u64 {
@@ -655,10 +704,16 @@ pub fn c05_budget(_n: usize) -> u64 {
     50_000_000
 }
 
-/// budget of search-loop iterations: a correct search visits at most O(2^n) choice points; the largest
-/// correct run observed for n <= 7 needs 361 iterations, so this leaves >= 50x head-room in every size class
+/// budget of search-loop iterations. The search is chronological backtracking over a binary tree of depth
+/// <= n: every iteration either pushes a choice (enters a node) or backtracks (leaves one), so a correct
+/// search needs at most 4 * 2^n iterations and learning only prunes. The largest correct run observed needs
+/// 2.9 * 2^n; the limit leaves 50x head-room for n <= 8 and 10x above (where one iteration is expensive).
 pub fn c05_loop_limit(n: usize) -> u64 {
-    1000 + 200 * (1u64 << n.min(20))
+    if n <= 8 {
+        1000 + 200 * (1u64 << n)
+    } else {
+        1000 + 40 * (1u64 << n.min(20))
+    }
 }
 
 static CUSTOM_STATE: AtomicU64 = AtomicU64::new(0);
@@ -787,7 +842,9 @@ fn c05_check(cfg: &Cfg, rep: &mut Report, case_seed: u64, case: &SmallCase, rand
             let detail = json!({"heuristic": hname, "backend": b.name(), "mode": format!("{:?}", mode), "sort": sort.name(),
                 "rand_seed": seed.map(|s| s.to_vec()), "custom_state": custom_state.to_string()});
             let loop_limit = c05_loop_limit(case.g.n);
+            set_model_limit(want_two.len() as u64);
             let run = run_nogood(&o, b, mode, heuristic_by_name(hname), seed, budget, loop_limit);
+            set_model_limit(u64::MAX);
             match run {
                 Ok(run) => {
                     rep.count("searches", 1);
@@ -872,6 +929,13 @@ fn c05_check(cfg: &Cfg, rep: &mut Report, case_seed: u64, case: &SmallCase, rand
                     if backtracks >= 1 && learned >= 1 && loops >= 3 {
                         nontrivial = true;
                     }
+                }
+                Err(Caught::Repeat(k)) => {
+                    rep.violation(
+                        &format!("nogood-model-reached-again:{}", heu_class(hname)),
+                        format!("{} {:?} {}: the search reached a two-valued model for the {}th time, the framework has {}", hname, mode, b.name(), k, want_two.len()),
+                        replay_of(cfg, case_seed, case, detail),
+                    );
                 }
                 Err(Caught::Budget(steps)) => {
                     rep.violation(
